@@ -23,6 +23,12 @@ func (r *checkRun) runBounded() int {
 		start := time.Now()
 		cmd := exec.Command(filepath.Join(verifDir, "tools", "overlay_test.sh"), r.repo, b.Package, filepath.Join(verifDir, "bounded", b.File), b.Test)
 		cmd.Env = append(os.Environ(), "VERIF_BOUND="+bound, fmt.Sprintf("VERIF_SEED=%d", r.seed), "VERIF_PROPERTY="+r.cfg.Property)
+		if b.Tags != "" {
+			cmd.Env = append(cmd.Env, "VERIF_TAGS="+b.Tags)
+		}
+		if b.Timeout != "" {
+			cmd.Env = append(cmd.Env, "VERIF_TEST_TIMEOUT="+b.Timeout)
+		}
 		out, err := cmd.CombinedOutput()
 		rec := map[string]any{"name": b.Name, "function": b.Test, "label": "bounded (exhaustive up to the stated bound; not a proof)", "bound_param": bound, "wall_s": round3(time.Since(start).Seconds())}
 		var failures []string
